@@ -586,8 +586,22 @@ fn run_history(args: &Args, hist: u64, seed: u64, flags: &Flags, out: &Mutex<Out
         if let Some((gc, gk)) = w.last_given.take() { regive(&mut w, &gc, &gk, "just-handed-over", hist, out); }
     }
 
-    let reinit_at = if rng.chance(45) { flags.n_ops / 2 + rng.below(flags.n_ops / 3 + 1) } else { u64::MAX };
+    // every second history re-initialises the signer half way (the others end with the F15b scenario)
+    let reinit_at = { let r = rng.below(flags.n_ops / 3 + 1); if hist % 2 == 1 { flags.n_ops / 2 + r } else { u64::MAX } };
     for opi in 0..flags.n_ops {
+        if opi >= reinit_at && !w.reinit_done {
+            // bring every child's key roll to its end first: the re-initialised signer holds no certificates
+            for _ in 0..14 {
+                let Some(c) = w.children.iter().find(|c| key_state(&w.parties[0], c).0 != "active").cloned() else { break };
+                let stepname = if key_state(&w.parties[0], &c).0 == "roll_new" { "activate" } else { "sync" };
+                let _ = step!(json!({"op": "roll_step", "child": c, "step": stepname, "why": "before signer re-initialisation"}), None, None, match stepname {
+                    "activate" => w.parties[0].keyroll_activate(&c).and_then(|_| w.parties[0].sync_parent(&c, "ta").map(|_| ())),
+                    _ => w.parties[0].sync_parent(&c, "ta").map(|_| ()),
+                }.map_err(|e| e.to_string()));
+                let pending = sorted_map(&cur_proxy(&w, 0)["child_details"]).iter().any(|(_, ch)| ch["open_requests"].as_object().map(|m| !m.is_empty()).unwrap_or(false));
+                if pending || w.open_nonce(0).is_some() { honest_exchange!(0); }
+            }
+        }
         if opi >= reinit_at && !w.reinit_done && w.children.iter().all(|c| key_state(&w.parties[0], c).0 == "active") {
             // finish whatever is open, then associate the proxy with the re-initialised signer
             if w.open_nonce(0).is_some() { honest_exchange!(0); }
@@ -961,6 +975,7 @@ fn main() {
     let mut o = out.into_inner().unwrap();
     o.w.flush();
     if n_hist > 0 && flags.n_ops > 0 && !o.kind_hist.contains_key("signer:processed-request-of-2+-children") { o.harness_errors.push("no signer request with requests of two or more children was processed in this run".into()); }
+    if n_hist >= 2 && flags.n_ops >= 10 && !o.op_hist.contains_key("signer_reinit") { o.harness_errors.push("no signer re-initialisation happened in this run".into()); }
     if o.unknown_blobs > 0 { let n = o.unknown_blobs; o.harness_errors.push(format!("{n} signed blobs of unknown origin (bookkeeping of who signed what)")); }
     write_json(&args.out.join("stats.json"), &json!({
         "scenario": "c15", "seed": args.seed, "tier": args.tier, "histories": n_hist, "ops_per_history": flags.n_ops, "wedge": flags.wedge, "late": flags.late,
